@@ -281,17 +281,8 @@ func (w *World) checkMaps(ins []*SegH, drops []*roaring.Bitmap, maps [][]uint64)
 	r := w.r
 	var next uint64
 	if len(maps) != len(ins) {
-		if next == 0 && len(maps) == 0 {
-			// nothing survives: zapx returns no maps at all; verify that indeed nothing survives
-			for i, h := range ins {
-				for d := uint64(0); d < h.Canon.Count; d++ {
-					if !dropped(drops[i], d) {
-						r.fail("C05.maps", "Merge", "Merge returned %d maps for %d input segments although documents survive", len(maps), len(ins))
-					}
-				}
-			}
-			return 0
-		}
+		// (also when nothing survives: the statement asks for one map per input
+		// segment, sending every deleted document to the sentinel)
 		r.fail("C05.maps", "Merge", "Merge returned %d maps for %d input segments", len(maps), len(ins))
 	}
 	for i, h := range ins {
